@@ -12,6 +12,7 @@ def run(ctx):
     from ahbicht.models.condition_nodes import ConditionFulfilledValue as V
 
     built, cases = c04.common(ctx, "Props/C07.vo")
+    cases = cases + fc_deep_cases(ctx)
     # correspondence 1: node level (the collected expression string is compared character by character with `render`)
     raws = c04.correspondence(ctx, cases, "C07", levels=("node",))
     # correspondence 2: the whole part (requirement evaluation, then format_constraint_evaluation of the collected string)
@@ -65,7 +66,7 @@ def run(ctx):
                 ctx.fail(f"value|{key}|{vals}", dict(desc, fc=beta), f"value of the direct reading {want}", f"value of {fx!r} differs", "oracle: meaning of the collected expression")
                 break
     ctx.coverage["distinct_nontrivial"] = n_nontrivial
-    ctx.coverage["rule"] = ("corpus of C04 (exhaustive <= 3 leaves x all assignments + random trees). Correspondence: the collected expression string vs the model's `render` (node level), "
+    ctx.coverage["rule"] = ("corpus of C04 (exhaustive <= 3 leaves x all assignments + random trees) + deeply nested FC trees (4-9 leaves, FCs bare or attached to fulfilled RCs). Correspondence: the collected expression string vs the model's `render` (node level), "
                             "and requirement evaluation followed by format_constraint_evaluation of the collected string under random truth assignments vs the model (part level). "
                             "Oracle: presence, shape (keys from the source, only U/O/X/brackets), and the Boolean value under ALL truth assignments vs an independent Python reading; "
                             "non-trivial = distinct valid (expression, assignment) pairs that collect an expression")
@@ -74,6 +75,32 @@ def run(ctx):
             ctx.sample({"expression": exprs.show(t), "rc": rho, "collected": v.format_constraints_expression})
     return finish(ctx, assumptions=["interpretation S1 of the direct reading (DESIGN.md section 7)",
                                     "the string-level builder equals `render` of the token-level builder: established by correspondence (character by character), not by a theorem"])
+
+
+def fc_deep_cases(ctx):
+    """deeply nested format-constraint structure: every leaf is a bare FC key or an FC attached to a requirement constraint, so that with
+    fulfilled requirement constraints the collected expression has the full nesting of the source (brackets inside brackets on both sides)"""
+    rng = ctx.rng
+    rcs, fcs = ["1", "2", "3", "2001"], ["901", "902", "903", "999"]
+
+    def leaf():
+        f = ("L", rng.choice(fcs))
+        return f if rng.random() < 0.5 else ("then", ("L", rng.choice(rcs)), f)
+
+    def tree(n):
+        if n == 1:
+            return leaf()
+        i = rng.randint(1, n - 1)
+        return (rng.choice(("and", "or", "xor")), tree(i), tree(n - i))
+
+    out = []
+    for _ in range(150 if ctx.quick else 3000):
+        t = tree(rng.randint(4, 9))
+        rk = sorted({k for k in exprs.leaves(t) if exprs.kind(k) == "rc"})
+        out.append((t, {k: "FULFILLED" for k in rk}))
+        if rng.random() < 0.3:
+            out.append((t, {k: rng.choice(evalcorr.STATES) for k in rk}))
+    return out
 
 
 def _nodes(t):
